@@ -44,6 +44,26 @@ def _is_pure(e) -> bool:
     return False
 
 
+def _own_nodes(fn):
+    """nodes of fn that are not inside a nested function / lambda / class"""
+    stack = list(ast.iter_child_nodes(fn))
+    while stack:
+        n = stack.pop()
+        yield n
+        if isinstance(n, (*FuncT, ast.Lambda, ast.ClassDef)):
+            continue
+        stack.extend(ast.iter_child_nodes(n))
+
+
+def _stored_in(body) -> set[str]:
+    out = set()
+    for s in body:
+        for n in ast.walk(s):
+            if isinstance(n, ast.Name) and isinstance(n.ctx, (ast.Store, ast.Del)):
+                out.add(n.id)
+    return out
+
+
 class Helper:
     def __init__(self, fn, kind: str):
         self.fn = fn
@@ -59,11 +79,19 @@ class Helper:
             if d is not None:
                 self.defaults[x.arg] = d
         self.body = _strip_doc(fn.body)
+        self.inner_bound: set[str] = set()  # names rebound by functions nested in the helper
         for n in ast.walk(fn):
-            if n is not fn and isinstance(n, (*FuncT, ast.ClassDef, ast.Lambda, ast.Global, ast.Nonlocal)):
+            if n is not fn and isinstance(n, (ast.ClassDef, ast.Global, ast.Nonlocal)):
                 self.ok = False
-        self.returns = [n for n in ast.walk(fn) if isinstance(n, ast.Return)]
-        self.is_gen = any(isinstance(n, (ast.Yield, ast.YieldFrom)) for n in ast.walk(fn))
+            elif n is not fn and isinstance(n, (*FuncT, ast.Lambda)):
+                # nested functions are fine as long as they do not rebind a parameter of the helper (substitution
+                # of the parameter would otherwise reach the wrong variable)
+                inner = {a.arg for a in ast.walk(n.args) if isinstance(a, ast.arg)}
+                if isinstance(n, FuncT):
+                    inner |= _stored_in(n.body)
+                self.inner_bound |= inner
+        self.returns = [n for n in _own_nodes(fn) if isinstance(n, ast.Return)]
+        self.is_gen = any(isinstance(n, (ast.Yield, ast.YieldFrom)) for n in _own_nodes(fn))
         self.single_expr = (
             len(self.body) == 1 and isinstance(self.body[0], ast.Return) and self.body[0].value is not None and not self.is_gen
         )
@@ -134,9 +162,9 @@ def _names(node) -> set[str]:
     return {n.id for n in ast.walk(node) if isinstance(n, ast.Name)}
 
 
-def _instantiate(h: Helper, binds, caller_names: set[str], at: ast.AST):
+def _instantiate(h: Helper, binds, caller_names: set[str], at: ast.AST, hbody=None):
     """copy of the helper body with parameters substituted; returns (prefix assignments, body)"""
-    body = copy.deepcopy(h.body)
+    body = copy.deepcopy(h.body) if hbody is None else hbody
     stored = _stored(body)
     direct, prefix = {}, []
     for p, a in binds.items():
@@ -147,6 +175,13 @@ def _instantiate(h: Helper, binds, caller_names: set[str], at: ast.AST):
             direct[p] = a
         else:
             prefix.append(ast.Assign(targets=[ast.Name(id=p, ctx=ast.Store())], value=copy.deepcopy(a), lineno=at.lineno, col_offset=at.col_offset))
+    # a parameter that a nested function of the helper rebinds can only be substituted by itself
+    for p, a in direct.items():
+        if p in h.inner_bound and not (isinstance(a, ast.Name) and a.id == p):
+            return None, None
+    for s in prefix:
+        if s.targets[0].id in h.inner_bound:
+            return None, None
     # helper locals colliding with the caller's names
     bound_by_prefix = {s.targets[0].id for s in prefix}
     ren = {}
@@ -167,11 +202,93 @@ def _instantiate(h: Helper, binds, caller_names: set[str], at: ast.AST):
     return prefix, body
 
 
+def _is_bare_return(st) -> bool:
+    return isinstance(st, ast.Return) and (st.value is None or (isinstance(st.value, ast.Constant) and st.value.value is None))
+
+
+def eliminate_early_returns(body: list) -> list | None:
+    """rewrite `if c: ...; return` followed by REST as `if c: ... else: REST` (bare returns only, outside loops);
+    None if some value-less return cannot be removed this way"""
+    out: list = []
+    for i, st in enumerate(body):
+        rest = body[i + 1 :]
+        if _is_bare_return(st):
+            return out  # everything after it is dead
+        if isinstance(st, ast.If):
+            b = eliminate_tail(st.body)
+            o = eliminate_tail(st.orelse)
+            if b is None or o is None:
+                return None
+            b_ret, b_body = b
+            o_ret, o_body = o
+            if b_ret or o_ret:
+                r = eliminate_early_returns(rest)
+                if r is None:
+                    return None
+                new = ast.copy_location(ast.If(test=st.test, body=b_body or [ast.copy_location(ast.Pass(), st)], orelse=o_body), st)
+                if b_ret and o_ret:
+                    pass  # both arms return: the rest is dead
+                elif b_ret:
+                    new.orelse = [*o_body, *r]
+                else:
+                    new.body = [*(b_body or []), *r] or [ast.copy_location(ast.Pass(), st)]
+                out.append(new)
+                return out
+            out.append(st)
+            continue
+        if any(isinstance(n, ast.Return) for n in _own_nodes_stmt(st)):
+            return None  # a return inside a loop / with / try: not handled
+        out.append(st)
+    return out
+
+
+def eliminate_tail(body: list):
+    """(ends with a bare return?, body without it) -- None if the block contains returns elsewhere"""
+    if not body:
+        return False, []
+    if _is_bare_return(body[-1]):
+        head = body[:-1]
+        if any(isinstance(n, ast.Return) for s in head for n in _own_nodes_stmt(s)):
+            return None
+        return True, head
+    if any(isinstance(n, ast.Return) for s in body for n in _own_nodes_stmt(s)):
+        # nested early returns inside this arm: try recursively
+        r = eliminate_early_returns(body)
+        if r is None or any(isinstance(n, ast.Return) for s in r for n in _own_nodes_stmt(s)):
+            return None
+        return False, r
+    return False, body
+
+
+def _own_nodes_stmt(st):
+    yield st
+    stack = list(ast.iter_child_nodes(st))
+    while stack:
+        n = stack.pop()
+        yield n
+        if isinstance(n, (*FuncT, ast.Lambda, ast.ClassDef)):
+            continue
+        stack.extend(ast.iter_child_nodes(n))
+
+
 def _ends_with_terminator(body) -> bool:
     return bool(body) and isinstance(body[-1], (ast.Return, ast.Raise))
 
 
-def inline_new_helpers(tree: ast.Module, ref_defs: set[str], ref_nested: dict[str, set[str]]) -> list[str]:
+def _free_names(h: "Helper") -> set[str]:
+    bound = set(h.params) | _stored(h.fn.body)
+    return {n.id for s in h.fn.body for n in ast.walk(s) if isinstance(n, ast.Name) and isinstance(n.ctx, ast.Load)} - bound
+
+
+def _bound_in(g) -> set[str]:
+    out = {a.arg for a in ast.walk(g.args) if isinstance(a, ast.arg)} | _stored(g.body)
+    for n in ast.walk(g):
+        if isinstance(n, ast.Nonlocal):
+            out -= set(n.names)
+    return out
+
+
+def inline_new_helpers(tree: ast.Module, ref_defs: set[str], ref_nested: dict[str, set[str]], rename_shadowing: bool = False) -> list[str]:
     """ref_defs: qualified names of functions of the reference module; ref_nested: names of the defs nested in each of
     them.  Returns the list of inlined call sites."""
     # collect candidate helpers
@@ -233,23 +350,50 @@ def inline_new_helpers(tree: ast.Module, ref_defs: set[str], ref_nested: dict[st
             for st in fn.body:
                 if isinstance(st, FuncT) and st.name not in known and not st.decorator_list:
                     h = Helper(st, "function")
-                    if h.ok:
+                    # closures that contain closures are left alone (their scopes are rewritten while they are used)
+                    leaf = not any(isinstance(n, (*FuncT, ast.Lambda)) for n in ast.walk(st) if n is not st)
+                    if h.ok and (leaf or not rename_shadowing):
                         local_helpers[st.name] = h
         if not helpers and not local_helpers:
             return
         caller_names = _names(fn) | {a.arg for a in ast.walk(fn) if isinstance(a, ast.arg)}
 
         # -- statement level
-        def rewrite_body(body: list) -> list:
+        def shadowing_ok(h: Helper, scopes) -> bool:
+            """the helper's free variables must mean the same at the call site as where the helper is defined"""
+            free = _free_names(h)
+            is_local = any(h is lh for lh in local_helpers.values())
+            check = list(scopes) if is_local else [fn, *scopes]
+            for g in check:
+                clash = free & _bound_in(g)
+                if h.kind in ("method", "class"):
+                    clash -= {h.params[0]} if h.params else set()
+                if not clash:
+                    continue
+                if not (rename_shadowing and g is not fn):
+                    return False
+                # comparison copies only: give the shadowing bindings of the nested function fresh names
+                for c in ast.walk(fn):
+                    if isinstance(c, ast.Call) and isinstance(c.func, ast.Name) and c.func.id == g.name and any(k.arg in clash for k in c.keywords):
+                        return False
+                for n in ast.walk(g):
+                    if isinstance(n, ast.Name) and n.id in clash:
+                        n.id += "__s"
+                    elif isinstance(n, ast.arg) and n.arg in clash:
+                        n.arg += "__s"
+            return True
+
+        def rewrite_body(body: list, scopes=()) -> list:
             out = []
             for st in body:
+                inner = (*scopes, st) if isinstance(st, FuncT) else scopes
                 for fld in ("body", "orelse", "finalbody"):
                     sub = getattr(st, fld, None)
                     if isinstance(sub, list) and sub and isinstance(sub[0], ast.stmt):
-                        setattr(st, fld, rewrite_body(sub))
+                        setattr(st, fld, rewrite_body(sub, inner))
                 if isinstance(st, ast.Try):
                     for hd in st.handlers:
-                        hd.body = rewrite_body(hd.body)
+                        hd.body = rewrite_body(hd.body, inner)
                 repl = None
                 call = None
                 if isinstance(st, ast.Return) and isinstance(st.value, ast.Call):
@@ -267,7 +411,7 @@ def inline_new_helpers(tree: ast.Module, ref_defs: set[str], ref_nested: dict[st
                         # single-expression helpers are substituted at expression level below, unless an argument
                         # with effects is used more than once: then it is bound in front of the statement
                         direct = binds is not None and all(_is_pure(a) or _uses(h.body, p) <= 1 for p, a in binds.items())
-                        if binds is not None and not (h.single_expr and direct):
+                        if binds is not None and not (h.single_expr and direct) and shadowing_ok(h, scopes):
                             repl = splice(h, binds, mode, st)
                 if repl is not None:
                     done.append(f"{fn.name}: {ast.unparse(call.func)} ({mode})")
@@ -282,15 +426,22 @@ def inline_new_helpers(tree: ast.Module, ref_defs: set[str], ref_nested: dict[st
                     return None
             elif h.is_gen:
                 return None
+            hbody = None
             if mode == "expr":
                 bad = [r for r in h.returns if r.value is not None and not (isinstance(r.value, ast.Constant) and r.value.value is None)]
                 early = [r for r in h.returns if r is not h.body[-1]]
-                if bad or early:
+                if bad:
                     return None
+                if early:
+                    hbody = eliminate_early_returns(copy.deepcopy(h.body))
+                    if hbody is None or any(isinstance(n, ast.Return) for s in hbody for n in _own_nodes_stmt(s)):
+                        return None
             if mode == "assign":
                 if len(h.returns) != 1 or h.returns[0] is not h.body[-1] or h.returns[0].value is None:
                     return None
-            prefix, body = _instantiate(h, binds, caller_names, st)
+            prefix, body = _instantiate(h, binds, caller_names, st, hbody)
+            if body is None:
+                return None
             if mode == "return":
                 if not _ends_with_terminator(body):
                     body.append(ast.copy_location(ast.Return(value=ast.Constant(value=None)), st))
@@ -322,6 +473,14 @@ def inline_new_helpers(tree: ast.Module, ref_defs: set[str], ref_nested: dict[st
                 binds = h.bind(node, recv)
                 if binds is None:
                     return node
+                free = _free_names(h)
+                is_local = any(h is lh for lh in local_helpers.values())
+                nested_bound = set()
+                for g in ast.walk(fn):
+                    if g is not fn and isinstance(g, FuncT) and g is not h.fn:
+                        nested_bound |= _bound_in(g)
+                if free & (nested_bound if is_local else (nested_bound | _bound_in(fn))):
+                    return node  # a free variable of the helper could be captured at this site
                 expr = copy.deepcopy(h.body[0].value)
                 sub = {}
                 for p, a in binds.items():
@@ -361,4 +520,36 @@ def inline_new_helpers(tree: ast.Module, ref_defs: set[str], ref_nested: dict[st
                 walk(child, cls)
 
     walk(tree, None)
+    # a new helper all of whose uses were inlined is dropped from the view (the rules would otherwise meet its body twice)
+    for (cls, name), h in helpers.items():
+        uses = 0
+        for n in ast.walk(tree):
+            if any(n is x for x in ()):  # placeholder to keep the loop simple
+                pass
+            if isinstance(n, ast.Name) and n.id == name and isinstance(n.ctx, ast.Load):
+                uses += 1
+            elif isinstance(n, ast.Attribute) and n.attr == name:
+                uses += 1
+        inside = sum(
+            1
+            for n in ast.walk(h.fn)
+            if (isinstance(n, ast.Name) and n.id == name and isinstance(n.ctx, ast.Load)) or (isinstance(n, ast.Attribute) and n.attr == name)
+        )
+        if uses - inside == 0 and any(d.startswith(f"{h.fn.name}:") or f": {name}" in d or d.split(": ")[-1].split(" ")[0].split(".")[-1] == name for d in done):
+            for node in ast.walk(tree):
+                body = getattr(node, "body", None)
+                if isinstance(body, list) and h.fn in body:
+                    body.remove(h.fn)
+                    if not body:
+                        body.append(ast.Pass(lineno=h.fn.lineno, col_offset=0))
+                    done.append(f"<dropped fully inlined helper {name}>")
+                    break
     return done
+
+
+def inline_local_closures(fn) -> int:
+    """for comparisons only: inline every nested function of `fn` that is used as a direct callee (statement-level
+    call, assignment, return, yield from, or single-expression body); returns the number of call sites inlined"""
+    mod = ast.Module(body=[fn], type_ignores=[])
+    done = inline_new_helpers(mod, {fn.name}, {fn.name: set()}, rename_shadowing=True)
+    return len(done)
